@@ -464,6 +464,13 @@ def r1411(db, ctx, roots):
     ctx.floor('R14.11', n, 4, 'white-space-insensitive blank tests in the readers')
 
 
+def r1412(db, ctx):
+    from . import C09
+    ctx.rule('R14.12', 'transfac Record::to_freq: freq[i][j] = (value[i][j] + pseudo[j]) / row total over the whole row, every row and column of the '
+                       'record matrix (sibling of CountMatrix::to_freq, R9.9)')
+    C09.to_freq_form(db, ctx, 'R14.12', 'lightmotif_io::transfac::Record::to_freq', ('fld', ('down', ('fld', ('p', 1), 'data'), 'Some'), '0'))
+
+
 def r147(db, ctx, roots):
     ctx.rule('R14.7', 'each reader has a path returning None taken when the stream reports 0 bytes and nothing non-blank is pending')
     n = 0
@@ -717,6 +724,7 @@ def run(db, ctx):
     r146(db, ctx)
     r147(db, ctx, roots)
     r1411(db, ctx, roots)
+    r1412(db, ctx)
     r148(db, ctx)
     r149(db, ctx)
     r1410(db, ctx)
